@@ -59,3 +59,202 @@ func genPreloadFacts(o *out, cb map[string]*ast.File) {
 	o.write("PreloadFacts", b.String())
 	o.facts["preloadSingleNilCheck"] = nilCheck
 }
+
+// ---- round 3: the sessions a load derives (Statement.Unscoped) and the error checks of preload's queries --------------
+
+func init() {
+	extraGens = append(extraGens, func(o *out, pkgs map[string]map[string]*ast.File, all []funcInfo, repo string) {
+		genPreloadSessions(o, pkgs["callbacks"], pkgs["."])
+	})
+}
+
+// does n contain `<x>.Statement.Unscoped = <y>.Statement.Unscoped` (x != y)?
+func c11CopiesUnscoped(n ast.Node) bool {
+	found := false
+	if n == nil {
+		return false
+	}
+	ast.Inspect(n, func(x ast.Node) bool {
+		as, ok := x.(*ast.AssignStmt)
+		if !ok || len(as.Lhs) != 1 || len(as.Rhs) != 1 {
+			return true
+		}
+		l, r := src(as.Lhs[0]), src(as.Rhs[0])
+		if strings.HasSuffix(l, ".Statement.Unscoped") && strings.HasSuffix(r, ".Statement.Unscoped") && l != r {
+			found = true
+		}
+		return true
+	})
+	return found
+}
+
+// the first gorm.Session literal in n: (found, NewDB: true)
+func c11SessionLit(n ast.Node) (bool, bool) {
+	if n == nil {
+		return false, false
+	}
+	fields, found := literalFields(n, "gorm.Session")
+	newDB := false
+	for _, f := range fields {
+		if f[0] == "NewDB" && f[1] == "true" {
+			newDB = true
+		}
+	}
+	return found, newDB
+}
+
+func c11CallsFunc(n ast.Node, name string) bool {
+	found := false
+	if n == nil {
+		return false
+	}
+	ast.Inspect(n, func(x ast.Node) bool {
+		if c, ok := x.(*ast.CallExpr); ok {
+			if id, ok := c.Fun.(*ast.Ident); ok && id.Name == name {
+				found = true
+			}
+		}
+		return true
+	})
+	return found
+}
+
+func genPreloadSessions(o *out, cb, root map[string]*ast.File) {
+	var b strings.Builder
+	rule := func(name, doc string, newDB, copies bool) {
+		b.WriteString("/-- " + doc + " -/\n")
+		b.WriteString("def " + name + "NewDB : Bool := " + lbool(newDB) + "\n")
+		b.WriteString("def " + name + "Copies : Bool := " + lbool(copies) + "\n\n")
+		o.facts[name+"NewDB"], o.facts[name+"Copies"] = newDB, copies
+	}
+	// preloadDB itself
+	pdb := findFunc(cb, "preloadDB")
+	pdbFound, pdbNew := false, false
+	pdbCopies := false
+	if pdb != nil {
+		pdbFound, pdbNew = c11SessionLit(pdb.Body)
+		// inside preloadDB only an UNCONDITIONAL copy counts (a statement of the function body itself)
+		for _, st := range pdb.Body.List {
+			if as, ok := st.(*ast.AssignStmt); ok && c11CopiesUnscoped(as) {
+				pdbCopies = true
+			}
+		}
+	}
+	// a session built in n: through preloadDB (its rule) and / or an own gorm.Session literal; an explicit copy in n adds to it.
+	// No session construction found at all: reported as (newDB = true, copies = false) so that the theorems fail loudly.
+	derive := func(n ast.Node) (bool, bool) {
+		if n == nil {
+			return true, false
+		}
+		via := c11CallsFunc(n, "preloadDB") && pdbFound
+		lit, litNew := c11SessionLit(n)
+		newDB, copies := false, c11CopiesUnscoped(n)
+		switch {
+		case via:
+			newDB = pdbNew
+			copies = copies || pdbCopies
+		case lit:
+			newDB = litNew
+		default:
+			return true, false
+		}
+		return newDB, copies
+	}
+	// callbacks.Preload: the root session
+	var rootBody ast.Node
+	if fd := findFunc(cb, "Preload"); fd != nil {
+		rootBody = fd.Body
+	}
+	rn, rc := derive(rootBody)
+	rule("preloadRoot", "callbacks/query.go Preload: the session handed to preloadEntryPoint (via preloadDB and / or an explicit copy)", rn, rc)
+	// preloadEntryPoint: `if joined, … := isJoined(name); joined { switch … case slice / case struct } else { … }`
+	var sliceBody, structBody, elseBody ast.Node
+	if fd := findFunc(cb, "preloadEntryPoint"); fd != nil {
+		ast.Inspect(fd.Body, func(x ast.Node) bool {
+			is, ok := x.(*ast.IfStmt)
+			if !ok || is.Init == nil || !strings.Contains(src(is.Init), "isJoined(") {
+				return true
+			}
+			elseBody = is.Else
+			ast.Inspect(is.Body, func(y ast.Node) bool {
+				cc, ok := y.(*ast.CaseClause)
+				if !ok {
+					return true
+				}
+				for _, e := range cc.List {
+					switch {
+					case strings.HasSuffix(src(e), "reflect.Slice"):
+						sliceBody = &ast.BlockStmt{List: cc.Body}
+					case strings.HasSuffix(src(e), "reflect.Struct"):
+						structBody = &ast.BlockStmt{List: cc.Body}
+					}
+				}
+				return true
+			})
+			return false
+		})
+	}
+	sn, sc := derive(sliceBody)
+	rule("preloadJoinedSlice", "callbacks/preload.go preloadEntryPoint, relation JOINED, slice destination: the session of the next level", sn, sc)
+	tn, tc := derive(structBody)
+	rule("preloadJoinedStruct", "callbacks/preload.go preloadEntryPoint, relation JOINED, single record: the session of the next level", tn, tc)
+	en, ec := derive(elseBody)
+	rule("preloadEntry", "callbacks/preload.go preloadEntryPoint, relation NOT joined: the session handed to preload()", en, ec)
+	// Statement.clone keeps Unscoped
+	keeps := false
+	if fd := findFunc(root, "Statement.clone"); fd != nil {
+		ast.Inspect(fd.Body, func(x ast.Node) bool {
+			if kv, ok := x.(*ast.KeyValueExpr); ok && src(kv.Key) == "Unscoped" && strings.HasSuffix(src(kv.Value), ".Unscoped") {
+				keeps = true
+			}
+			return true
+		})
+	}
+	b.WriteString("/-- statement.go Statement.clone copies the Unscoped flag -/\n")
+	b.WriteString("def stmtCloneKeepsUnscoped : Bool := " + lbool(keeps) + "\n\n")
+	o.facts["stmtCloneKeepsUnscoped"] = keeps
+
+	// the Find calls of preload() in source order: is the error of each tested and returned?
+	//   if err := <…>.Find(<…>).Error; err != nil { return err }
+	var checked []string
+	if fd := findFunc(cb, "preload"); fd != nil {
+		var stack []ast.Node
+		ast.Inspect(fd.Body, func(x ast.Node) bool {
+			if x == nil {
+				stack = stack[:len(stack)-1]
+				return true
+			}
+			stack = append(stack, x)
+			call, ok := x.(*ast.CallExpr)
+			if !ok {
+				return true
+			}
+			sel, ok := call.Fun.(*ast.SelectorExpr)
+			if !ok || sel.Sel.Name != "Find" {
+				return true
+			}
+			good := false
+			// parents: SelectorExpr(.Error) <- AssignStmt(err := …) <- IfStmt(Init; err != nil) { return err }
+			if n := len(stack); n >= 4 {
+				if se, ok := stack[n-2].(*ast.SelectorExpr); ok && se.Sel.Name == "Error" {
+					if as, ok := stack[n-3].(*ast.AssignStmt); ok && len(as.Lhs) == 1 {
+						if is, ok := stack[n-4].(*ast.IfStmt); ok && is.Init == ast.Stmt(as) {
+							v := src(as.Lhs[0])
+							if src(is.Cond) == v+" != nil" && len(is.Body.List) > 0 {
+								if rs, ok := is.Body.List[0].(*ast.ReturnStmt); ok && len(rs.Results) == 1 && src(rs.Results[0]) == v {
+									good = true
+								}
+							}
+						}
+					}
+				}
+			}
+			checked = append(checked, lbool(good))
+			return true
+		})
+	}
+	b.WriteString("/-- callbacks/preload.go preload: one entry per `.Find(` call in source order (join-table query, related-table query):\n    true = written as `if err := ….Find(…).Error; err != nil { return err }` -/\n")
+	b.WriteString("def preloadFindsChecked : List Bool := [" + strings.Join(checked, ", ") + "]\n")
+	o.facts["preloadFindsChecked"] = checked
+	o.write("PreloadSessions", b.String())
+}
